@@ -2,6 +2,8 @@ package engine
 
 import (
 	"fmt"
+	"go/token"
+	"sort"
 	"go/types"
 	"strings"
 
@@ -51,6 +53,7 @@ func (e *fnEnc) freshResults(v ssa.Value, sig *types.Signature, hint string) []s
 }
 
 func (e *fnEnc) call(v ssa.Value, c *ssa.CallCommon, instr ssa.Instruction) {
+	e.countHit(c, instr)
 	e.siteAsserts(v, c, instr, true)
 	e.call0(v, c, instr)
 	e.siteAsserts(v, c, instr, false)
@@ -72,19 +75,13 @@ func (e *fnEnc) siteAsserts(v ssa.Value, c *ssa.CallCommon, instr ssa.Instructio
 	} else if b, ok := c.Value.(*ssa.Builtin); ok {
 		names = append(names, b.Name())
 	}
-	if e.callOrd == nil {
-		e.callOrd = map[string]int{}
-	}
 	seen := map[string]bool{}
 	for _, n := range names {
 		if seen[n] {
 			continue
 		}
 		seen[n] = true
-		site := fmt.Sprintf("%s#%d", n, e.callOrd[n])
-		if !before {
-			e.callOrd[n]++
-		}
+		site := fmt.Sprintf("%s#%d", n, e.siteOrdinal(instr, n))
 		for _, cl := range e.contract.AtCalls {
 			if cl.Site != site || (cl.Kind == "assert-before") != before {
 				continue
@@ -590,6 +587,8 @@ func (e *fnEnc) builtin(v ssa.Value, b *ssa.Builtin, c *ssa.CallCommon, instr ss
 		hk := e.S().MapHasKey(mt)
 		hh := e.heap(hk)
 		e.setHeap(hk, sIte(fmt.Sprintf("(= %s 0)", m), hh, fmt.Sprintf("(store %s %s (store (select %s %s) %s false))", hh, m, hh, m, k)))
+		e.vc.declFun("maplen", "((Array Int Bool)) Int")
+		e.vc.assume(fmt.Sprintf("(and (>= (maplen (select %s %s)) 0) (>= (maplen (select %s %s)) (- (maplen (select %s %s)) 1)) (=> (not (select (select %s %s) %s)) (= (maplen (select %s %s)) (maplen (select %s %s)))))", e.heap(hk), m, e.heap(hk), m, hh, m, hh, m, k, e.heap(hk), m, hh, m))
 	case "print", "println", "close", "clear":
 	case "recover":
 		e.opaque(v)
@@ -657,4 +656,94 @@ func (e *fnEnc) singleAppendElem(arg ssa.Value) (string, bool) {
 	// value currently stored in element 0
 	arr := e.loadPtr(e.term(al), al.Type().Underlying().(*types.Pointer).Elem())
 	return fmt.Sprintf("(select %s 0)", arr), true
+}
+
+// callNames lists the names under which a call can be addressed in "at call" / hits() clauses.
+func (e *fnEnc) callNames(c *ssa.CallCommon) []string {
+	var names []string
+	if fn := e.staticCallee(c); fn != nil {
+		names = append(names, fn.Name(), fn.String())
+		if fn.Pkg != nil {
+			names = append(names, fn.RelString(fn.Pkg.Pkg))
+		}
+	} else if c.IsInvoke() {
+		names = append(names, c.Method.Name())
+	} else if b, ok := c.Value.(*ssa.Builtin); ok {
+		names = append(names, b.Name())
+	}
+	return names
+}
+
+// countHit increments the ghost counters of call sites the contract mentions through hits("name#k").
+func (e *fnEnc) countHit(c *ssa.CallCommon, instr ssa.Instruction) {
+	if !e.top || e.contract == nil || len(e.contract.HitSites) == 0 {
+		return
+	}
+	seen := map[string]bool{}
+	for _, n := range e.callNames(c) {
+		if seen[n] {
+			continue
+		}
+		seen[n] = true
+		site := fmt.Sprintf("%s#%d", n, e.siteOrdinal(instr, n))
+		if e.contract.HitSites[site] {
+			k := hitsKey(site)
+			e.setHeap(k, fmt.Sprintf("(+ %s 1)", e.heap(k)))
+		}
+	}
+}
+
+// siteOrdinal numbers the call sites of one callee name by source position (k-th call to name in the
+// function text), independent of block layout.
+func (e *fnEnc) siteOrdinal(instr ssa.Instruction, name string) int {
+	if e.siteOrd == nil {
+		e.siteOrd = map[ssa.Instruction]map[string]int{}
+		type site struct {
+			in  ssa.Instruction
+			pos token.Pos
+			blk int
+			idx int
+		}
+		var all []site
+		for _, b := range e.fn.Blocks {
+			for k, in := range b.Instrs {
+				if ci, ok := in.(ssa.CallInstruction); ok {
+					p := in.Pos()
+					if !p.IsValid() {
+						p = ci.Common().Pos()
+					}
+					all = append(all, site{in, p, b.Index, k})
+				}
+			}
+		}
+		sort.SliceStable(all, func(i, j int) bool {
+			if all[i].pos != all[j].pos {
+				return all[i].pos < all[j].pos
+			}
+			if all[i].blk != all[j].blk {
+				return all[i].blk < all[j].blk
+			}
+			return all[i].idx < all[j].idx
+		})
+		count := map[string]int{}
+		for _, s := range all {
+			m := map[string]int{}
+			seen := map[string]bool{}
+			for _, n := range e.callNames(s.in.(ssa.CallInstruction).Common()) {
+				if seen[n] {
+					continue
+				}
+				seen[n] = true
+				m[n] = count[n]
+				count[n]++
+			}
+			e.siteOrd[s.in] = m
+		}
+	}
+	if m, ok := e.siteOrd[instr]; ok {
+		if k, ok := m[name]; ok {
+			return k
+		}
+	}
+	return -1
 }
